@@ -176,3 +176,9 @@ Lemma pack_consts :
   c_empty = empty_gen /\ c_out = out_gen /\ c_notavail = notavail_gen /\
   forallb enc_sample_ok enc_samples = true /\ forallb dec_sample_ok dec_samples = true.
 Proof. vm_compute. repeat split; reflexivity. Qed.
+
+(** the side condition of incscore_enc is necessary: the 65536th match carries out of the score field into the
+    in-band flag - the cell becomes an "out" cell with score 0 (the mechanism of the known finding lcs-16bit-fields) *)
+Lemma score_field_overflow : exists s l, s = 65535 /\ l <= 65534 /\
+  incscore (enc s l false) <> enc (s + 1) l false /\ dec (incscore (enc s l false)) = (0, l, true).
+Proof. exists 65535, 10. split; [reflexivity |]. split; [discriminate |]. split; [vm_compute; discriminate | vm_compute; reflexivity]. Qed.
